@@ -368,6 +368,25 @@ def triage_lookup(ctx, s, key3):
                     return inv2
     except SyntaxError:
         pass
+    # 2c. a label that used to be bound to a local first is now written in place:  A[label]  ->  A[B[k]]  (the inner subscript is
+    # a site of its own): the entry of the same function for the same container A with a plain-name index speaks about it
+    if kind == "subscript":
+        try:
+            e_ = ast.parse(text, mode="eval").body
+        except SyntaxError:
+            e_ = None
+        if isinstance(e_, ast.Subscript) and isinstance(e_.value, ast.Name) and isinstance(e_.slice, ast.Subscript):
+            invs = set()
+            for (f2, k2, t2), inv2 in TRIAGE.items():
+                if f2 == fname and k2 == kind:
+                    try:
+                        e2 = ast.parse(t2, mode="eval").body
+                    except SyntaxError:
+                        continue
+                    if isinstance(e2, ast.Subscript) and isinstance(e2.value, ast.Name) and e2.value.id == e_.value.id and isinstance(e2.slice, ast.Name):
+                        invs.add(inv2)
+            if len(invs) == 1:
+                return invs.pop()
     it = _index_text(text)
     if it is not None and kind == "subscript":
         for (f2, k2, t2), inv2 in free:
